@@ -57,6 +57,29 @@ type parser struct {
 	validDirectives []string    // a directive must be valid or it's an error
 	eof             bool        // if we encounter a valid EOF in a hard place
 	definedSnippets map[string][]Token
+	expansions      []importExpansion // expansions[n-1] describes import expansion n
+}
+
+// importExpansion records what one expansion of an import statement brought
+// in (an absolute file name or "snippet <name>") and which expansion the
+// import statement itself belonged to (0: the input given to Parse).
+type importExpansion struct {
+	source string
+	parent int
+}
+
+// newExpansion registers an expansion of source, requested by an import
+// statement that belongs to expansion parent, and returns its number. It
+// fails if source is already being expanded further up the chain, because
+// such an import cycle would be expanded forever.
+func (p *parser) newExpansion(source string, parent int) (int, error) {
+	for n := parent; n > 0; n = p.expansions[n-1].parent {
+		if p.expansions[n-1].source == source {
+			return 0, p.Errf("Import cycle: %s is imported from within itself", source)
+		}
+	}
+	p.expansions = append(p.expansions, importExpansion{source: source, parent: parent})
+	return len(p.expansions), nil
 }
 
 func (p *parser) parseAll() ([]ServerBlock, error) {
@@ -232,6 +255,7 @@ func (p *parser) directives() error {
 // imported.
 func (p *parser) doImport() error {
 	verifhook.Point("casketfile.doImport")
+	importer := p.tokens[p.cursor].imp // the expansion the import statement belongs to
 	// syntax checks
 	if !p.NextArg() {
 		return p.ArgErr()
@@ -250,7 +274,14 @@ func (p *parser) doImport() error {
 
 	// first check snippets. That is a simple, non-recursive replacement
 	if p.definedSnippets != nil && p.definedSnippets[importPattern] != nil {
-		importedTokens = p.definedSnippets[importPattern]
+		n, err := p.newExpansion("snippet "+importPattern, importer)
+		if err != nil {
+			return err
+		}
+		importedTokens = append(importedTokens, p.definedSnippets[importPattern]...)
+		for i := range importedTokens {
+			importedTokens[i].imp = n
+		}
 	} else {
 		// make path relative to the file of the _token_ being processed rather
 		// than current working directory (issue #867) and then use glob to get
@@ -288,7 +319,7 @@ func (p *parser) doImport() error {
 		// collect all the imported tokens
 
 		for _, importFile := range matches {
-			newTokens, err := p.doSingleImport(importFile)
+			newTokens, err := p.doSingleImport(importFile, importer)
 			if err != nil {
 				return err
 			}
@@ -306,7 +337,7 @@ func (p *parser) doImport() error {
 
 // doSingleImport lexes the individual file at importFile and returns
 // its tokens or an error, if any.
-func (p *parser) doSingleImport(importFile string) ([]Token, error) {
+func (p *parser) doSingleImport(importFile string, importer int) ([]Token, error) {
 	file, err := os.Open(importFile)
 	if err != nil {
 		return nil, p.Errf("Could not import %s: %v", importFile, err)
@@ -330,8 +361,13 @@ func (p *parser) doSingleImport(importFile string) ([]Token, error) {
 	if err != nil {
 		return nil, p.Errf("Failed to get absolute path of file: %s: %v", p.Dispenser.filename, err)
 	}
+	n, err := p.newExpansion(filename, importer)
+	if err != nil {
+		return nil, err
+	}
 	for i := 0; i < len(importedTokens); i++ {
 		importedTokens[i].File = filename
+		importedTokens[i].imp = n
 	}
 
 	return importedTokens, nil
